@@ -106,6 +106,14 @@ def native_snr(ck):
                 bad = {"clause": "order independence"}
             elif not np.all(np.isfinite(s)):
                 bad = {"clause": "finite"}
+            else:
+                # as many events as frequency bins (a square field array must not be taken for a frequency-major one)
+                Es = rng.normal(size=(nb, nb)) * 1e-4
+                Es[1] = 0.0
+                ss = calculate_snr(Es, (lo, hi), h, N, G)
+                one = np.array([calculate_snr(Es[j : j + 1], (lo, hi), h, N, G)[0] for j in range(nb)])
+                if ss.shape != (nb,) or not np.allclose(ss, one, rtol=1e-12, atol=0) or ss[1] != 0:
+                    bad = {"clause": "a batch with as many events as frequency bins gives, event by event, the single-event SNR", "events": nb}
             if bad:
                 return {"violated": True, "input": {"band": [lo, hi], "h_obs": h, "Nants": N, "gain": G, "seed": ck.seed}, "observed": bad, "clause": "SNR scaling"}
     return {"violated": False, "evaluations": n}
@@ -284,6 +292,48 @@ def native_radio(ck, model=None):
                 return {"violated": True, "input": {"altDec": float(b[1][0])}, "observed": {"max |field|": float(np.abs(out).max())}, "clause": "exact zero outside [0,10] km"}
         except Exception as ex:
             return {"violated": True, "input": {k: model.get(k) for k in model}, "observed": "raised %r" % ex, "clause": "no exception"}
+    # decays just outside the 0..10 km window (rounding-size and sub-km excursions) give exactly zero; the window's own ends are simulated
+    cfg = radio_config(30.0, 300.0, 525.0)
+    edge = list(native_batch(rng, 12))
+    edge[1] = np.array([-1e-12, float(np.nextafter(0.0, -1.0)), -0.3, -0.49, 0.0, 5.0, 10.0, float(np.nextafter(10.0, 11.0)), 10.0000001, 10.4, 9.6, 9.99])
+    edge[2] = np.abs(edge[1]) / np.sin(edge[0]) + 0.5
+    with np.errstate(all="ignore"):
+        np.random.seed(ck.seed + 4)  # the clause does not depend on the random numbers: seeded generator, no assumption on how many are drawn
+        out = np.asarray(EASRadio(cfg)(*[b.copy() for b in edge]))
+    n += 1
+    outside = (edge[1] < 0.0) | (edge[1] > 10.0)
+    if np.any(out[outside] != 0) or not np.all(np.any(out[~outside] != 0, axis=1)):
+        j = int(np.argmax(np.any(out != 0, axis=1) != ~outside))
+        return {"violated": True, "input": {"altDec": repr(float(edge[1][j])), "all decay altitudes": [repr(float(x)) for x in edge[1]]}, "observed": {"max |field| of that event": float(np.abs(out[j]).max()), "expected zero": bool(outside[j])},
+                "clause": "exactly the decays with 0 <= altitude <= 10 km (as doubles) produce a field; all others exactly zero"}
+    # ionosphere switched on above 90 km with parameters that have no fit (no scaling is applied then): the field stays linear in the shower energy
+    from nuspacesim.config import NssConfig
+
+    icfg = NssConfig()
+    icfg.detector.radio.low_frequency, icfg.detector.radio.high_frequency = 50.0, 500.0
+    icfg.detector.initial_position.altitude = 525.0
+    icfg.simulation.ionosphere.total_electron_content = 7.0
+    batch = list(native_batch(rng, 30))
+    batch[1] = np.abs(batch[1]) % 10.0
+    import contextlib
+    import io
+
+    def run_seeded(b):
+        with contextlib.redirect_stdout(io.StringIO()), np.errstate(all="ignore"):
+            np.random.seed(ck.seed + 9)
+            return EASRadio(icfg)(*[x.copy() for x in b])
+
+    try:
+        e1 = run_seeded(batch)
+        b3 = list(batch)
+        b3[5] = batch[5] * 3.0
+        e3 = run_seeded(b3)
+        n += 2
+        if not (np.all(np.isfinite(e1)) and np.allclose(e3, 3.0 * e1, rtol=1e-10, atol=0) and np.any(e1 != 0)):
+            return {"violated": True, "input": {"band": [50.0, 500.0], "detector_altitude": 525.0, "ionosphere": "enabled, TEC 7 (no fitted parameters)", "seed": ck.seed + 9},
+                    "observed": {"field(E)": e1[0][:3].tolist(), "field(3E)": e3[0][:3].tolist()}, "clause": "linear in shower energy, also with the ionosphere enabled for parameters without a fit"}
+    except Exception as ex:
+        return {"violated": True, "input": {"ionosphere": "enabled, TEC 7"}, "observed": "raised %r" % ex, "clause": "the radio stage evaluates with the ionosphere enabled"}
     first = True
     for lo, hi, alt in ((30.0, 300.0, 525.0), (300.0, 570.0, 525.0), (300.0, 1000.0, 33.0), (30.0, 80.0, 400.0)):
         cfg = radio_config(lo, hi, alt)
